@@ -31,6 +31,9 @@ func domainSkip(r *CaseRun) string {
 	if r.Flags["nan-in-structural-eq"] > 0 {
 		return "domain:nan-in-structural-equality"
 	}
+	if r.Flags["time-difference-beyond-duration-range"] > 0 {
+		return "unspecified:time-difference-beyond-duration-range"
+	}
 	return ""
 }
 
